@@ -102,6 +102,8 @@ def run_c12(pid, tier, seed):
     for x in recs:
         graphs += x["graphs"]
         nontriv += x["distinct_nontrivial"]
+    small = dict(consts(T, True), MaxEdges=2)
+    rep.cov["action_coverage_small_model"] = vlib.action_coverage("MC_Serde", vlib.cfg_text(small, spec="GSpec", invariants=["RoundTripAllOrders"]), "%s/cov" % tag)
     rep.cov.update({"states": states, "transitions": transitions, "traces_validated_against_impl": graphs,
                     "recorded_events_validated_by_tlc": events, "evaluations": events, "distinct_nontrivial": nontriv,
                     "rule": "one round trip = (graph, flavour, format json/cbor, fresh container with one insertion order); non-trivial = graph has an edge; "
@@ -181,6 +183,8 @@ def run_c13(pid, tier, seed):
                               "%s/%s: mutated document (%s) %s gave %s; TLC: %s" % (fl, ev["fmt"], ev["mutation"], ev["input"][:200],
                                                                                    json.dumps(ev["res"] if ev["rt"] == "graph" else ev["detail"])[:200], ", ".join(reasons)),
                               {"source": "seeded-mutation", "flavour": fl, "event": ev, "tlc_reasons": reasons})
+    small = dict(consts(T, True), MaxDocNodes=1, MaxDocEdges=1)
+    rep.cov["action_coverage_small_model"] = vlib.action_coverage("MC_Serde", vlib.cfg_text(small, spec="DSpec", invariants=["DeserAllowed", "DeserErrIff"]), "%s/cov" % tag)
     rep.cov.update({"states": states, "transitions": transitions, "traces_validated_against_impl": docs + events,
                     "tlc_documents_replayed_into_impl": docs, "implementation_executions_compared": execs,
                     "mutated_documents_validated_by_tlc": events, "evaluations": execs + events,
